@@ -28,7 +28,12 @@ EXPLANATION = (
     'T[i,j] * (pi*q-)[i] * q+[j] - the row factor carries the new trailing '
     'axis, the column factor none - and the diagonal is set to zero after the '
     'product and before the return; (D2) net flux is f - f^T of the same f '
-    'with negatives set to zero; (D3) q- = 1 - q+ from one committor call on '
+    'with negatives set to zero, and - because reactive_fluxes returns a '
+    'scipy.sparse matrix for a sparse tprob (container kinds propagated from '
+    'the matrix parameter through conversion methods, .T, +/-, comparisons) - '
+    'no numpy function that coerces its argument with np.asarray (where, '
+    'flatnonzero, maximum, minimum, clip, isclose) is applied to the sparse-capable net flux '
+    'outside an issparse-excluded branch; (D3) q- = 1 - q+ from one committor call on '
     'the same (tprob, sources, sinks), reactive populations are pi*q+*q- '
     'normalised by their own sum; (D4) no store (including augmented '
     'assignment) reaches tprob or the caller\'s populations; (D5) the '
@@ -721,6 +726,177 @@ def d2_clip(ck, mod, fn, fi, ret, N, site):
 
 
 # ---------------------------------------------------------------------------
+# D2 (containers): a sparse tprob gives a sparse flux matrix; what net_fluxes
+# does to it must be something scipy.sparse containers support
+
+# methods of a scipy.sparse container that return a scipy.sparse container
+SPARSE_KEEP = CONVERSIONS | {'multiply', 'transpose', 'maximum', 'minimum', 'astype', 'power', 'conj', 'conjugate', 'asformat'}
+SPARSE_DENSIFY = {'toarray', 'todense'}
+# numpy functions that coerce their argument with np.asarray (a sparse
+# container becomes a 0-d object array: ValueError / garbage) or compare it as a whole
+# (each entry tried against scipy 1.18 / numpy 2.4 on a csr matrix)
+NP_NO_SPARSE = {'where', 'flatnonzero', 'maximum', 'minimum', 'fmax', 'fmin', 'clip', 'isclose'}
+# numpy functions that dispatch to the method of the same name (np.argwhere: transpose of nonzero)
+NP_DISPATCH = {'transpose', 'nonzero', 'argwhere'}
+NP_KEEP = {'transpose'}                 # ... and hand a sparse container back
+NP_MODS = ('np', 'numpy')
+
+
+def _issparse_arg(e):
+    if isinstance(e, ast.Call) and (call_name(e) or '').split('.')[-1] in ('issparse', 'isspmatrix') and len(e.args) == 1 and not e.keywords:
+        return e.args[0]
+    return None
+
+
+class Containers:
+    """Which expressions of a function can evaluate to a scipy.sparse
+    container ('sparse'), which cannot ('dense'); None = not known.  Sources:
+    the matrix parameter (sparse unless an issparse test on it excludes that at
+    the point of use) and the definition sites given in `sources`.  Kinds are
+    propagated through the operations scipy.sparse defines (conversion methods,
+    .T, +/- of two sparse operands, comparison with a scalar, elementwise
+    methods); an in-place store does not change the kind of its object."""
+
+    def __init__(self, fi, matrix_param, sources=None):
+        self.fi, self.param, self.sources = fi, matrix_param, sources or {}
+
+    def guard(self, stmt):
+        """'sparse' / 'dense' if a test issparse(<x>) on a value that can be sparse dominates stmt."""
+        fi = self.fi
+        for a in fi.cfg.nodes:
+            if not (isinstance(a, Assume) and fi.cfg.dominates(a, stmt)):
+                continue
+            for c in conjuncts(a.test, a.polarity) or []:
+                if isinstance(c, tuple) and c[0] == 'expr':
+                    x = _issparse_arg(c[1])
+                    if x is not None and self.kind(x, use_guard=False) == 'sparse':
+                        return 'sparse' if c[2] else 'dense'
+        return None
+
+    def kind(self, e, depth=10, use_guard=True):
+        fi = self.fi
+        if depth <= 0 or e is None:
+            return None
+        k = lambda x: self.kind(x, depth - 1, use_guard)
+        if isinstance(e, ast.Constant):
+            return 'dense'
+        if isinstance(e, ast.Name):
+            try:
+                st = fi.stmt(e)
+                defs = fi.defs_of_use(e)
+            except Exception:
+                return None
+            if use_guard and st is not None and self.guard(st) == 'dense':
+                # (every value that can be sparse here derives from the tested one: single matrix input)
+                return 'dense'
+            ks = []
+            for d in defs:
+                if d in self.sources:
+                    ks.append(self.sources[d])
+                elif d == 'PARAM':
+                    ks.append('sparse' if e.id == self.param else None)
+                elif isinstance(d, (ast.Assign, ast.AnnAssign)):
+                    ks.append(k(fi.def_value(d, e.id)))
+                else:
+                    ks.append(None)
+            if 'sparse' in ks:
+                return 'sparse'
+            return 'dense' if ks and all(x == 'dense' for x in ks) else None
+        if isinstance(e, ast.Attribute):
+            if e.attr == 'T':
+                return k(e.value)
+            return 'dense' if e.attr == 'A' and k(e.value) == 'sparse' else None
+        if isinstance(e, ast.UnaryOp) and isinstance(e.op, ast.USub):
+            return k(e.operand)
+        if isinstance(e, ast.BinOp) and isinstance(e.op, (ast.Add, ast.Sub)):
+            l, r = k(e.left), k(e.right)
+            if l == 'sparse' and r == 'sparse':
+                return 'sparse'
+            return 'dense' if l is not None and r is not None else None       # sparse +/- dense is a dense np.matrix
+        if isinstance(e, ast.Compare) and len(e.ops) == 1:
+            l, r = k(e.left), k(e.comparators[0])
+            if 'sparse' in (l, r) and all(x == 'sparse' or isinstance(y, ast.Constant) or (isinstance(y, ast.UnaryOp) and isinstance(y.operand, ast.Constant))
+                                          for x, y in ((l, e.left), (r, e.comparators[0]))):
+                return 'sparse'             # a sparse boolean matrix
+            return 'dense' if l == 'dense' and r == 'dense' else None
+        if isinstance(e, ast.IfExp):
+            a, b = k(e.body), k(e.orelse)
+            return 'sparse' if 'sparse' in (a, b) else a if a == b else None
+        if isinstance(e, ast.Call):
+            cn = call_name(e) or ''
+            if isinstance(e.func, ast.Attribute) and not (isinstance(e.func.value, ast.Name) and e.func.value.id in NP_MODS + ('copy', 'sparse', 'scipy')):
+                base = k(e.func.value)
+                if e.func.attr in SPARSE_DENSIFY:
+                    return 'dense' if base is not None else None
+                if e.func.attr in SPARSE_KEEP:
+                    return base
+                return None
+            if cn in ('copy.copy', 'copy.deepcopy') + tuple('%s.%s' % (m, f) for m in NP_MODS for f in NP_KEEP) and len(e.args) >= 1:
+                return k(e.args[0])
+        return None
+
+
+def returns_container(mod, F):
+    """'sparse' if F(tprob, ...) can return a scipy.sparse container (for a sparse tprob), 'dense' if it cannot, None if unknown."""
+    fn = mod.func(F)
+    co = Containers(finfo(mod, fn), params(fn)[0])
+    ks = [co.kind(r.value) if r.value is not None else 'dense' for r in returns_of(fn)]
+    if 'sparse' in ks:
+        return 'sparse'
+    return 'dense' if ks and all(x == 'dense' for x in ks) else None
+
+
+def d2_containers(ck, mod):
+    """Necessary for "dense and sparse containers": reactive_fluxes hands a
+    scipy.sparse matrix back for a sparse tprob (its sparse branch), so every
+    numpy function that net_fluxes applies to that matrix (or to f - f^T, or to
+    a comparison of it) must accept scipy.sparse containers - np.where /
+    np.maximum / np.clip / np.isclose do not (they see a 0-d object array);
+    np.nonzero / np.transpose dispatch to the container's own method."""
+    rule = 'C08.D2.net-flux.sparse-container'
+    F = 'net_fluxes'
+    fn = mod.func(F)
+    fi = finfo(mod, fn)
+    calls = [c for c in calls_in(fn) if (call_name(c) or '').split('.')[-1] == 'reactive_fluxes']
+    cst = fi.stmt(calls[0]) if len(calls) == 1 else None
+    if not (isinstance(cst, ast.Assign) and cst.value is calls[0] and len(cst.targets) == 1 and isinstance(cst.targets[0], ast.Name)):
+        ck.missing(rule, 'result of the one reactive_fluxes call bound to a name in net_fluxes')
+        return
+    src = returns_container(mod, 'reactive_fluxes')
+    if src is None:
+        ck.missing(rule, 'container type of the matrix returned by reactive_fluxes for a sparse tprob not recognised')
+        return
+    if src == 'dense':
+        ck.ok(rule, mod, cst, u(cst)[:160], 'reactive_fluxes returns a dense array for every input: nothing to show for net_fluxes')
+        return
+    co = Containers(fi, params(fn)[0], {cst: 'sparse'})
+    n_bad = n_unknown = 0
+    for c in calls_in(fn):
+        cn = call_name(c) or ''
+        if '.' not in cn or cn.split('.')[0] not in NP_MODS:
+            continue
+        f = cn.split('.', 1)[1]
+        args = list(c.args) + [kw.value for kw in c.keywords]
+        if not any(co.kind(a) == 'sparse' for a in args):
+            continue
+        st = fi.stmt(c)
+        if f in NP_DISPATCH:
+            continue
+        if f in NP_NO_SPARSE:
+            n_bad += 1
+            ck.bad(rule, mod, st, F, 'np.%s applied to the (sparse-capable) net flux' % f,
+                   'for a scipy.sparse tprob reactive_fluxes returns a sparse matrix, so `%s` hands a scipy.sparse container to np.%s, which '
+                   'does not understand it (np.asarray of a sparse matrix is a 0-d object array: ValueError with NumPy >= 2, row 0 zeroed before): '
+                   'net_fluxes fails for every sparse transition matrix. Use an operation the container defines (boolean-mask store, .maximum(0), '
+                   '.nonzero()) or branch on issparse' % (u(c)[:100], f))
+        else:
+            n_unknown += 1
+            ck.missing(rule, 'np.%s is applied to a value that is a scipy.sparse matrix for sparse input: `%s` (not in the table of functions)' % (f, u(c)[:100]))
+    if not n_bad and not n_unknown:
+        ck.ok(rule, mod, cst, u(cst)[:160], 'the flux matrix is sparse for sparse input; no numpy-only function is applied to it or to values derived from it')
+
+
+# ---------------------------------------------------------------------------
 # D3
 
 def index_set_forms(p):
@@ -926,6 +1102,7 @@ def check(ck):
     roles, why = helper_roles(mod)
     d1_fluxes(ck, mod, roles)
     d2_net(ck, mod)
+    d2_containers(ck, mod)
     d3_helper(ck, mod, roles, why)
     d3_reactive_populations(ck, mod, roles)
     check_no_arg_mutation(ck, 'C08.D4.inputs-unmodified', [
